@@ -260,11 +260,11 @@ def gen_pairs(rng, n):
     kinds = []
     for i in range(n):
         u = rng.random()
-        if u < 0.12:
+        if u < 0.10:
             pairs.append((rand_rgb(rng), rand_rgb(rng))); kinds.append("uniform")
-        elif u < 0.19:
+        elif u < 0.17:
             pairs.append(isoluminant_pair(rng)); kinds.append("isolum")
-        elif u < 0.22:
+        elif u < 0.25:
             pairs.append(order_disagree_pair(rng)); kinds.append("order_disagree")
         elif u < 0.34:
             a, b = rng.randrange(256), rng.randrange(256)
@@ -288,7 +288,9 @@ def gen_caf_cases(rng, n):
     pairs, kinds = gen_pairs(rng, n)
     cases = []
     for (t, b), k in zip(pairs, kinds):
-        cases.append((t, b, rng.randrange(2), rng.choice([0, 1, 1, 2]), rng.randrange(2)))
+        # pairs whose lightness order and luminance order disagree matter most in the stepping modes
+        mode = rng.choice([1, 1, 1, 2, 0]) if k in ("order_disagree", "isolum") else rng.choice([0, 1, 1, 2])
+        cases.append((t, b, rng.randrange(2), mode, rng.randrange(2)))
     return cases, kinds
 
 
